@@ -1,7 +1,7 @@
 (** Proofs about Model/Materialize.v (C14). *)
 From Coq Require Import NArith PeanoNat Compare_dec List Bool Lia Permutation.
 From Coq Require Import ZifyBool ZifyNat ZifyN.
-From Snel Require Import Model.Materialize.
+From Snel Require Import Gen.Params Model.Materialize.
 Import ListNotations.
 Open Scope N_scope.
 
@@ -168,17 +168,17 @@ Proof.
   rewrite filter_flat_map. apply flat_map_ext_in. intros g Hg.
   assert (Hgood : forall e, In e (seg_events g) -> e_ts e <= g_mtime g + 1).
   { intros e He. unfold mtime_bad in Hm.
-    destruct (g_mtime g + 1 <? e_ts e) eqn:E; [|lia].
+    destruct (g_mtime g + mat_stale_slack <? e_ts e) eqn:E; [|unfold mat_stale_slack in E; lia].
     exfalso. assert (X : existsb (fun s => existsb seg_time_bad (s_segs s)) l = true).
     { apply existsb_exists. exists s. split; [exact Hs|]. apply existsb_exists. exists g. split; [exact Hg|].
       unfold seg_time_bad. apply existsb_exists. exists e. split; assumption. }
     congruence. }
-  unfold seg_rows, seg_stale.
+  unfold seg_rows, seg_stale, mat_stale_cmp, mat_stale_slack.
   destruct (g_mtime g <? h - 1) eqn:Est.
   - symmetry. apply filter_none. intros e He. specialize (Hgood e He).
     destruct (matches q e) eqn:M; [|reflexivity]. specialize (Hq e M). lia.
   - unfold seg_events. rewrite filter_concat, <- flat_map_concat_map.
-    apply flat_map_ext_in. intros z Hz. unfold zone_kept, zone_tsmax.
+    apply flat_map_ext_in. intros z Hz. unfold zone_kept, zone_tsmax, mat_zone_drop.
     destruct (max_of e_ts z <? h) eqn:Ez; cbn [negb]; [|apply filter_matches_at_core; exact Hc].
     symmetry. apply filter_none. intros e He.
     destruct (matches q e) eqn:M; [|reflexivity]. specialize (Hq e M).
@@ -344,7 +344,7 @@ Qed.
 Lemma delta_core : forall q m e, q_tf q = TCore ->
   matches (delta_query q m) e && wm_pass q m e = above q m e.
 Proof.
-  intros q m e Hc. unfold above, wm_pass, delta_query, tfval. rewrite Hc.
+  intros q m e Hc. unfold above, wm_pass, mat_wm_strict, delta_query, tfval. rewrite Hc.
   destruct (mark_zero m) eqn:Z; [reflexivity|].
   unfold matches, matches_at, since_blind, tfval; cbn [q_ctx q_where q_since q_tf andb]. rewrite Hc. fold (ekey e).
   destruct (mlt m (ekey e)) eqn:L; [|rewrite !andb_false_r; reflexivity].
@@ -527,7 +527,7 @@ Proof.
   { eapply perm_trans; [apply valid_order_perm; exact V|]. unfold fbs, m.
     rewrite delta_rows; [apply Permutation_refl|exact Htf|apply Hl]. }
   split; [|split; [|exact Hd]].
-  - unfold show_output, wm_enabled. rewrite Htf.
+  - unfold show_output, apply_limit, wm_enabled. rewrite Htf, Hlim.
     eapply perm_trans; [|apply Permutation_sym; apply (sel_split q m l)].
     apply Permutation_app; assumption.
   - split; [split; assumption|]. cbn [n_q n_frames]. rewrite concat_app.
@@ -783,8 +783,8 @@ Proof.
     assert (Hlen : length (concat nf2) = 0%nat).
     { apply Permutation_length in Hsp, Hst, Hd. rewrite app_length in Hsp.
       assert (X : length (concat (n_frames en ++ nf1)) = length (sel (n_q en) (st_layout st1))).
-      { rewrite Hlay. rewrite concat_app. rewrite Eo1 in Hp1. unfold show_output, wm_enabled in Hp1.
-        pose proof (reach_inv _ Hr) as [_ Hen0]. destruct (Hen0 _ _ Lk) as [[Htf _] _]. rewrite Htf in Hp1.
+      { rewrite Hlay. rewrite concat_app. rewrite Eo1 in Hp1. unfold show_output, apply_limit, wm_enabled in Hp1.
+        pose proof (reach_inv _ Hr) as [_ Hen0]. destruct (Hen0 _ _ Lk) as [[Htf Hlim0] _]. rewrite Htf, Hlim0 in Hp1.
         apply Permutation_length. exact Hp1. }
       lia. }
     destruct nf2 as [|f r]; [reflexivity|]. exfalso.
